@@ -111,6 +111,11 @@ def gen_batch(r, bi, services=False, can=False, n_random=(6, 9), out_of_order=Tr
             decls.append({"kind": "impl", "protocol": "can", "type": nm, "name": None, "items": [("field", "id", idv), ("field", "bus", ("s", bus))]})
             can_bindings.append((nm, idv, bus))
             k += 1
+    if can and can_bindings:
+        # a LATER binding of another protocol for a struct that already has a CAN binding, under the same
+        # (default) name: bindings are identified by (name, protocol)
+        s0 = can_bindings[r.randrange(min(3, len(can_bindings)))][0]
+        decls.append({"kind": "impl", "protocol": r.choice(["uart", "lin"]), "type": s0, "name": None, "items": [("field", "id", r.randint(1, 200))]})
     nobus = None
     if can:
         # a CAN binding that declares no bus (outside C18's quantifier, but part of real schemas): frames
